@@ -129,6 +129,9 @@ def run(ctx):
                 n.nsmap = {"eml": "urn:e", "xsi": "urn:x"}
                 if rng.random() < 0.2:
                     n.nsmap[None] = "urn:default"          # what from_xml stores for xmlns="..."
+                elif rng.random() < 0.2:
+                    # ... and what a JSON round trip of such a document leaves behind: the literal keys "null" / "None"
+                    n.nsmap[rng.choice(["null", "None", ""])] = "urn:default"
             if n.parent is None and rng.random() < 0.3:
                 n.attributes[rng.choice(["xmlns:eml", "xmlns:stmml", "xmlns:xsi", "xsi:schemaLocation"])] = "urn:own"
             # qualified attributes (what XML import keeps in `extras`), also under a key an attribute uses too
